@@ -8,6 +8,7 @@
 -/
 import CachedModel.State
 import CachedProofs.Lemmas.AMap
+import CachedProofs.Lemmas.Admission
 
 namespace Cached
 
@@ -144,9 +145,10 @@ structure LoopSpec (w : Int) (a : Adm) (evNew : List Evicted) (r : LoopResult) :
   evNodup : (evNew.map (·.1)).Nodup
   evIn : ∀ e ∈ evNew, ∃ h, a.kw.get? e.1 = some ⟨e.2.1, h, e.2.2⟩
   get : ∀ i, r.adm.kw.get? i = if i ∈ evNew.map (·.1) then none else a.kw.get? i
-  status : r.status = .accepted ∨ r.status = .rejected .noSpace
+  status : r.status = .accepted ∨ r.status = .rejected .noSpace ∨ (r.status = .pending ∧ r.overflow = true)
   room : r.status = .accepted → w ≤ r.adm.max - r.adm.used
   usedEq : r.adm.used = a.used - (evNew.map (·.2.2)).sum
+  ovf : r.overflow = true → r.status = .pending ∧ r.adm.spaceOverflow = true
 
 theorem createLoop_spec (t : TinyLFU) (size : Nat) (w : Int) (incEst : Nat) :
     ∀ (fuel : Nat) (a : Adm) (sample : List SKey) (o : Oracle) (ev : List Evicted) (pp : List SKey)
@@ -161,7 +163,7 @@ theorem createLoop_spec (t : TinyLFU) (size : Nat) (w : Int) (incEst : Nat) :
     have base : ∀ st o' pl, (st = .accepted ∨ st = .rejected .noSpace) → (st = .accepted → w ≤ a.max - a.used) →
         LoopSpec w a [] { status := st, adm := a, oracle := o', evicted := ev.reverse, popped := pl } := by
       intro st o' pl h1 h2
-      exact ⟨hn, hs, rfl, by simp, by simp, by simp, h1, h2, by simp⟩
+      exact ⟨hn, hs, rfl, by simp, by simp, by simp, by rcases h1 with h1 | h1 <;> simp [h1], h2, by simp, by simp⟩
     rw [createLoop] at h
     split at h
     · rename_i hroom
@@ -190,50 +192,71 @@ theorem createLoop_spec (t : TinyLFU) (size : Nat) (w : Int) (incEst : Nat) :
                 rw [Adm.delete_none hg] at h
                 simp only at h
                 split at h
-                · cases h
-                · obtain ⟨evNew, he, spec⟩ := ih _ _ _ _ _ _ hn hs h
-                  exact ⟨evNew, he, spec⟩
+                · rename_i hov
+                  simp only [Except.ok.injEq] at h
+                  subst h
+                  exact ⟨[], by simp, hn, hs, rfl, by simp, by simp, by simp, by simp, by simp, by simp, fun _ => ⟨rfl, hov⟩⟩
+                · split at h
+                  · cases h
+                  · obtain ⟨evNew, he, spec⟩ := ih _ _ _ _ _ _ hn hs h
+                    exact ⟨evNew, he, spec⟩
               | some wk =>
                 rw [Adm.delete_some hg] at h
                 simp only at h
+                have hn' : AMap.NoDup (a.kw.del id) := AMap.noDup_del hn id
+                have hs' : a.used - wk.weight = sumW (a.kw.del id) := by
+                  rw [sumW_del hn hg, hs]
                 split at h
-                · cases h
-                · have hn' : AMap.NoDup (a.kw.del id) := AMap.noDup_del hn id
-                  have hs' : a.used - wk.weight = sumW (a.kw.del id) := by
-                    rw [sumW_del hn hg, hs]
-                  obtain ⟨evNew, he, spec⟩ := ih { a with kw := a.kw.del id, used := a.used - wk.weight }
-                    _ _ _ _ r hn' hs' h
-                  refine ⟨(id, wk.key, wk.weight) :: evNew, by simp [he], ?_⟩
-                  have hin : ∀ e ∈ evNew, e.1 ≠ id := by
-                    intro e hmem heq
-                    obtain ⟨hh, hget⟩ := spec.evIn e hmem
-                    simp only [AMap.get?_del, heq] at hget
-                    simp at hget
-                  refine ⟨spec.noDup, spec.sum, spec.max, ?_, ?_, ?_, spec.status, spec.room, ?_⟩
-                  · simp only [List.map_cons, List.nodup_cons, List.mem_map, not_exists, not_and]
-                    exact ⟨fun e hmem heq => hin e hmem heq, spec.evNodup⟩
+                · rename_i hov
+                  simp only [Except.ok.injEq] at h
+                  subst h
+                  refine ⟨[(id, wk.key, wk.weight)], by simp, hn', hs', rfl, by simp, ?_, ?_, by simp, by simp, by simp,
+                    fun _ => ⟨rfl, hov⟩⟩
                   · intro e hmem
-                    simp only [List.mem_cons] at hmem
-                    rcases hmem with rfl | hmem
-                    · exact ⟨wk.hash, by simp [hg]⟩
-                    · obtain ⟨hh, hget⟩ := spec.evIn e hmem
-                      refine ⟨hh, ?_⟩
-                      simp only [AMap.get?_del] at hget
-                      split at hget
-                      · cases hget
-                      · exact hget
+                    simp only [List.mem_singleton] at hmem
+                    subst hmem
+                    exact ⟨wk.hash, by simp [hg]⟩
                   · intro i
-                    rw [spec.get i]
-                    simp only [List.map_cons, List.mem_cons, AMap.get?_del]
-                    by_cases h1 : i ∈ evNew.map (·.1)
-                    · simp [h1]
-                    · by_cases h2 : id = i
-                      · subst h2; simp
-                      · have h3 : ¬ i = id := fun e => h2 e.symm
-                        simp [h1, h2, h3]
-                  · rw [spec.usedEq]
-                    simp only [List.map_cons, List.sum_cons]
-                    omega
+                    simp only [List.map_cons, List.map_nil, List.mem_singleton, AMap.get?_del]
+                    by_cases h2 : id = i
+                    · subst h2; simp
+                    · have h3 : ¬ i = id := fun e => h2 e.symm
+                      simp [h2, h3]
+                · split at h
+                  · cases h
+                  · obtain ⟨evNew, he, spec⟩ := ih { a with kw := a.kw.del id, used := a.used - wk.weight }
+                      _ _ _ _ r hn' hs' h
+                    refine ⟨(id, wk.key, wk.weight) :: evNew, by simp [he], ?_⟩
+                    have hin : ∀ e ∈ evNew, e.1 ≠ id := by
+                      intro e hmem heq
+                      obtain ⟨hh, hget⟩ := spec.evIn e hmem
+                      simp only [AMap.get?_del, heq] at hget
+                      simp at hget
+                    refine ⟨spec.noDup, spec.sum, spec.max, ?_, ?_, ?_, spec.status, spec.room, ?_, spec.ovf⟩
+                    · simp only [List.map_cons, List.nodup_cons, List.mem_map, not_exists, not_and]
+                      exact ⟨fun e hmem heq => hin e hmem heq, spec.evNodup⟩
+                    · intro e hmem
+                      simp only [List.mem_cons] at hmem
+                      rcases hmem with rfl | hmem
+                      · exact ⟨wk.hash, by simp [hg]⟩
+                      · obtain ⟨hh, hget⟩ := spec.evIn e hmem
+                        refine ⟨hh, ?_⟩
+                        simp only [AMap.get?_del] at hget
+                        split at hget
+                        · cases hget
+                        · exact hget
+                    · intro i
+                      rw [spec.get i]
+                      simp only [List.map_cons, List.mem_cons, AMap.get?_del]
+                      by_cases h1 : i ∈ evNew.map (·.1)
+                      · simp [h1]
+                      · by_cases h2 : id = i
+                        · subst h2; simp
+                        · have h3 : ¬ i = id := fun e => h2 e.symm
+                          simp [h1, h2, h3]
+                    · rw [spec.usedEq]
+                      simp only [List.map_cons, List.sum_cons]
+                      omega
 
 /-! ### `maybeAdd` -/
 
@@ -248,9 +271,12 @@ structure AddSpec (a : Adm) (id key hash : Nat) (w : Int) (r : AdmResult) : Prop
   get : ∀ i, r.adm.kw.get? i =
     if i = id ∧ r.status = .accepted then some ⟨key, hash, w⟩
     else if i ∈ r.evicted.map (·.1) then none else a.kw.get? i
-  status : r.status = .accepted ∨ r.status = .rejected .noSpace ∨ r.status = .rejected .tooHeavy
+  status : r.status = .accepted ∨ r.status = .rejected .noSpace ∨ r.status = .rejected .tooHeavy ∨
+    (r.status = .pending ∧ r.overflow = true)
   bound : r.status = .accepted → r.adm.used ≤ r.adm.max
   usedEq : r.adm.used = a.used - (r.evicted.map (·.2.2)).sum + (if r.status = .accepted then w else 0)
+  /-- the worker panicked in `is_space_available_for`: nothing was added, and the total it leaves is the one that overflowed -/
+  ovf : r.overflow = true → r.status = .pending ∧ r.adm.spaceOverflow = true
 
 theorem Adm.add_spec {a : Adm} (hn : AMap.NoDup a.kw) (hs : a.used = sumW a.kw) {id : Nat}
     (hid : a.kw.get? id = none) (key hash : Nat) (w : Int) :
@@ -274,62 +300,76 @@ theorem maybeAdd_spec {t : TinyLFU} {size : Nat} {a : Adm} {id key hash : Nat} {
   · -- too heavy
     simp only [Except.ok.injEq] at h
     subst h
-    refine ⟨hn, hs, rfl, by simp, by simp, by simp, ?_, by simp, by simp, by simp⟩
+    refine ⟨hn, hs, rfl, by simp, by simp, by simp, ?_, by simp, by simp, by simp, by simp⟩
     intro i
     by_cases hi : i = id
     · subst hi; simp [hid]
     · simp [hi]
   · split at h
-    · -- room without evictions
-      rename_i hroom
+    · -- `max_weight - weight_used` overflows: the worker panics before anything is changed
+      rename_i hov
       simp only [Except.ok.injEq] at h
       subst h
-      obtain ⟨h1, h2, h3, h4, h5⟩ := Adm.add_spec hn hs hid key hash w
-      refine ⟨h1, h2, h3, by simp, by simp, by simp, ?_, by simp, ?_, ?_⟩
-      · intro i; simp [h5 i]
-      · intro _; simp only [h3, h4]; omega
-      · simp [h4]
+      refine ⟨hn, hs, rfl, by simp, by simp, by simp, ?_, by simp, by simp, by simp, fun _ => ⟨rfl, hov⟩⟩
+      intro i
+      by_cases hi : i = id
+      · subst hi; simp [hid]
+      · simp [hi]
     · split at h
-      · cases h
+      · -- room without evictions
+        rename_i hroom
+        simp only [Except.ok.injEq] at h
+        subst h
+        obtain ⟨h1, h2, h3, h4, h5⟩ := Adm.add_spec hn hs hid key hash w
+        refine ⟨h1, h2, h3, by simp, by simp, by simp, ?_, by simp, ?_, ?_, by simp⟩
+        · intro i; simp [h5 i]
+        · intro _; simp only [h3, h4]; omega
+        · simp [h4]
       · split at h
         · cases h
         · split at h
           · cases h
-          · rename_i lr hloop
-            simp only [Except.ok.injEq] at h
-            subst h
-            obtain ⟨evNew, he, spec⟩ := createLoop_spec _ _ _ _ _ _ _ _ _ _ _ hn hs hloop
-            simp only [List.reverse_nil, List.nil_append] at he
-            subst he
-            have hnotev : id ∉ lr.evicted.map (·.1) := by
-              intro hmem
-              obtain ⟨e, hmem, heq⟩ := List.mem_map.mp hmem
-              obtain ⟨hh, hget⟩ := spec.evIn e hmem
-              rw [heq, hid] at hget
-              cases hget
-            have hid' : lr.adm.kw.get? id = none := by
-              rw [spec.get id]; simp [hnotev, hid]
-            by_cases hacc : lr.status = .accepted
-            · obtain ⟨h1, h2, h3, h4, h5⟩ := Adm.add_spec spec.noDup spec.sum hid' key hash w
-              simp only [hacc, if_true]
-              refine ⟨h1, h2, by rw [h3, spec.max], spec.evNodup, spec.evIn, hnotev, ?_, by simp, ?_, ?_⟩
-              · intro i
-                rw [h5 i, spec.get i]
-                simp
-              · intro _
-                have := spec.room hacc
-                simp only [h3, h4]; omega
-              · rw [h4, spec.usedEq]; simp
-            · simp only [hacc, if_false]
-              refine ⟨spec.noDup, spec.sum, spec.max, spec.evNodup, spec.evIn, hnotev, ?_, ?_, ?_, ?_⟩
-              · intro i
-                rw [spec.get i]
-                simp [hacc]
-              · rcases spec.status with h1 | h1
-                · exact absurd h1 hacc
-                · exact Or.inr (Or.inl h1)
-              · intro h1; exact absurd h1 hacc
-              · rw [spec.usedEq]; simp [hacc]
+          · split at h
+            · cases h
+            · rename_i lr hloop
+              simp only [Except.ok.injEq] at h
+              subst h
+              obtain ⟨evNew, he, spec⟩ := createLoop_spec _ _ _ _ _ _ _ _ _ _ _ hn hs hloop
+              simp only [List.reverse_nil, List.nil_append] at he
+              subst he
+              have hnotev : id ∉ lr.evicted.map (·.1) := by
+                intro hmem
+                obtain ⟨e, hmem, heq⟩ := List.mem_map.mp hmem
+                obtain ⟨hh, hget⟩ := spec.evIn e hmem
+                rw [heq, hid] at hget
+                cases hget
+              have hid' : lr.adm.kw.get? id = none := by
+                rw [spec.get id]; simp [hnotev, hid]
+              by_cases hacc : lr.status = .accepted
+              · obtain ⟨h1, h2, h3, h4, h5⟩ := Adm.add_spec spec.noDup spec.sum hid' key hash w
+                simp only [hacc, if_true]
+                refine ⟨h1, h2, by rw [h3, spec.max], spec.evNodup, spec.evIn, hnotev, ?_, by simp, ?_, ?_, ?_⟩
+                · intro i
+                  rw [h5 i, spec.get i]
+                  simp
+                · intro _
+                  have := spec.room hacc
+                  simp only [h3, h4]; omega
+                · rw [h4, spec.usedEq]; simp
+                · intro hov
+                  have := (spec.ovf hov).1
+                  rw [hacc] at this; cases this
+              · simp only [hacc, if_false]
+                refine ⟨spec.noDup, spec.sum, spec.max, spec.evNodup, spec.evIn, hnotev, ?_, ?_, ?_, ?_, spec.ovf⟩
+                · intro i
+                  rw [spec.get i]
+                  simp [hacc]
+                · rcases spec.status with h1 | h1 | h1
+                  · exact absurd h1 hacc
+                  · exact Or.inr (Or.inl h1)
+                  · exact Or.inr (Or.inr (Or.inr h1))
+                · intro h1; exact absurd h1 hacc
+                · rw [spec.usedEq]; simp [hacc]
 
 /-- All weights stay positive. -/
 theorem AddSpec.pos {a : Adm} {id key hash : Nat} {w : Int} {r : AdmResult} (sp : AddSpec a id key hash w r)
@@ -376,5 +416,79 @@ theorem AddSpec.used_le {a : Adm} {id key hash : Nat} {w : Int} {r : AdmResult} 
   have h2 := sp.usedEq
   simp only [hst, if_false] at h2
   omega
+
+/-! ### `is_space_available_for` does not overflow while the accounting is in order -/
+
+/-- The accounting in order: the total is the sum of the charged weights, all positive (so no total `create_space` passes
+    through is negative); the capacity is a non-negative `i64` (Layer G: `0 < total_cache_weight`, an `i64`) and so is the
+    total (it IS an `i64`; `CacheWeight::update` checks its own addition). -/
+structure Adm.Sound (a : Adm) : Prop where
+  noDup : AMap.NoDup a.kw
+  sum : a.used = sumW a.kw
+  pos : ∀ id wk, a.kw.get? id = some wk → 0 < wk.weight
+  max0 : 0 ≤ a.max
+  maxI : a.max ≤ i64Max
+  usedI : a.used ≤ i64Max
+
+theorem Adm.Sound.spaceOverflow_false {a : Adm} (h : a.Sound) : a.spaceOverflow = false :=
+  Adm.spaceOverflow_false (by rw [h.sum]; exact sumW_nonneg h.noDup h.pos) h.usedI h.max0 h.maxI
+
+/-- no run of the `create_space` loop from a sound admission state ends in the overflow panic -/
+theorem createLoop_no_overflow {t : TinyLFU} {size : Nat} {w : Int} {incEst : Nat} {fuel : Nat} {a : Adm}
+    {sample : List SKey} {o : Oracle} {ev : List Evicted} {pp : List SKey} {r : LoopResult} (ha : a.Sound)
+    (h : createLoop t size w incEst fuel a sample o ev pp = .ok r) : r.overflow = false := by
+  obtain ⟨evNew, -, spec⟩ := createLoop_spec t size w incEst fuel a sample o ev pp r ha.noDup ha.sum h
+  cases hov : r.overflow with
+  | false => rfl
+  | true =>
+    exfalso
+    have hpos : ∀ id wk, r.adm.kw.get? id = some wk → 0 < wk.weight := by
+      intro id wk hg
+      rw [spec.get id] at hg
+      split at hg
+      · cases hg
+      · exact ha.pos id wk hg
+    have hev : 0 ≤ (evNew.map (·.2.2)).sum := by
+      have : ∀ l : List Evicted, (∀ e ∈ l, 0 < e.2.2) → 0 ≤ (l.map (·.2.2)).sum := by
+        intro l
+        induction l with
+        | nil => simp
+        | cons x l ih =>
+          intro hl
+          have h1 := hl x (by simp)
+          have h2 := ih (fun e he => hl e (by simp [he]))
+          simp only [List.map_cons, List.sum_cons]; omega
+      apply this
+      intro e he
+      obtain ⟨hh, hg⟩ := spec.evIn e he
+      exact ha.pos _ _ hg
+    have hsound : r.adm.Sound :=
+      ⟨spec.noDup, spec.sum, hpos, by rw [spec.max]; exact ha.max0, by rw [spec.max]; exact ha.maxI,
+        by have := spec.usedEq; have := ha.usedI; omega⟩
+    have := (spec.ovf hov).2
+    rw [hsound.spaceOverflow_false] at this
+    cases this
+
+/-- … nor does `maybe_add` -/
+theorem maybeAdd_no_overflow {t : TinyLFU} {size : Nat} {a : Adm} {id key hash : Nat} {w : Int} {o : Oracle}
+    {r : AdmResult} (ha : a.Sound) (h : maybeAdd t size a id key hash w o = .ok r) : r.overflow = false := by
+  unfold maybeAdd at h
+  split at h
+  · simp only [Except.ok.injEq] at h; subst h; rfl
+  · split at h
+    · rename_i hov
+      rw [ha.spaceOverflow_false] at hov; cases hov
+    · split at h
+      · simp only [Except.ok.injEq] at h; subst h; rfl
+      · split at h
+        · cases h
+        · split at h
+          · cases h
+          · split at h
+            · cases h
+            · rename_i lr hloop
+              simp only [Except.ok.injEq] at h
+              subst h
+              exact createLoop_no_overflow ha hloop
 
 end Cached
